@@ -13,6 +13,8 @@ RULE = (
     "executed in ONE forked process; every observed result (tree, or furthest_pos with expected/unexpected "
     "label maps; generated source text) must equal the result of the same (grammar, optimizer, "
     "interpreter/generated, rule, input, k) computed in a fresh process that does nothing else (memoised). "
+    "position sweeps: every pool text parsed on ONE reused parser / module at every start position, len..0 and "
+    "0..len, always the same text object, each result compared with a fresh object and an equal distinct text. "
     "schedules: 2-4 threads x 2-3 parse() calls on shared parser objects and generated modules run under a "
     "cooperative scheduler driven by sys.monitoring LINE events in pest code (exactly one thread runs at a "
     "time, the seeded PRNG decides at every line whether to hand over), so the interleaving is a pure "
@@ -132,6 +134,32 @@ def run_isolated(req):
     if req["which"] == "gen":
         target = _load_module(parser.generate())
     return _observe(target, req["rule"], req["input"], req["k"])
+
+
+def run_sweep(req):
+    """Child (fresh): ONE reused parser / module, every task text parsed at every start position - from
+    len(text) down to 0 and up again - always passing the same text object; each observation is compared with
+    the same call on a fresh Parser (or freshly loaded module) and an equal but distinct text object."""
+    import pest
+
+    gi, cfg, which = req["object"]
+    gtext = req["texts"][gi]
+
+    def make():
+        parser = pest.Parser.from_grammar(gtext, optimizer=_make_optimizer(cfg))
+        return _load_module(parser.generate()) if which == "gen" else parser
+
+    target = make()
+    bad, n = [], 0
+    for rule, inp in req["tasks"]:
+        ks = list(range(len(inp), -1, -1)) + list(range(len(inp) + 1))
+        for k in ks:
+            got = _observe(target, rule, inp, k)
+            want = _observe(make(), rule, "".join(list(inp)), k)
+            n += 1
+            if got != want and "budget" not in (got[0], want[0]) and "recursion" not in (got[0], want[0]):
+                bad.append((rule, inp, k, got, want))
+    return {"bad": bad, "n": n}
 
 
 # --- owned schedules
@@ -551,6 +579,20 @@ def run_shard(ctx: Ctx, spec):
         elif res["results"] != res["seq"]:
             ctx.violation("schedule:result:shared-object", {"kind": "schedule", **req},
                           f"results under the schedule differ from the sequential results: {str(res['results'])[:300]} vs {str(res['seq'])[:300]}")
+    # position sweeps on one reused object and one text object (seeded change S66)
+    sweeps = [(gi, cfg, which) for gi in range(len(POOL)) for cfg in ("opt", "raw") for which in ("int", "gen")]
+    for j, obj in enumerate(sweeps):
+        if j % 16 != spec["idx"] or (ctx.tier == "quick" and obj[1] == "raw" and obj[2] == "gen"):
+            continue
+        req = {"texts": texts, "object": obj, "tasks": [tuple(t) for t in POOL[obj[0]][1]]}
+        res = one_shot("mixed", "pestverif.props.c15:run_sweep", req, timeout=600)
+        ctx.evals += res["n"]
+        ctx.nt_extra += res["n"]
+        ctx.count("position_sweep_calls", res["n"])
+        for rule, inp, k, got, want in res["bad"][:1]:
+            ctx.violation(f"sweep:result:{obj[1]}-{obj[2]}", {"kind": "sweep", **req, "at": [rule, inp, k]},
+                          f"parse({rule!r}, {inp!r}, start_pos={k}) on a reused {'module' if obj[2] == 'gen' else 'Parser'} after "
+                          f"calls at other start positions of the same text object: {str(got)[:250]}; on a fresh one: {str(want)[:250]}")
     # preemption-bounded exhaustive schedules (one pre-emption at EVERY line of the first thread's parse)
     pre = []
     for gi in range(len(POOL)):
@@ -608,6 +650,13 @@ def replay(case):
             return "schedule:hung: a thread did not finish"
         if res["results"] != res["seq"]:
             return f"schedule:result: {str(res['results'])[:300]} vs sequential {str(res['seq'])[:300]}"
+        return None
+    if case["kind"] == "sweep":
+        req = {"texts": case["texts"], "object": tuple(case["object"]), "tasks": [tuple(t) for t in case["tasks"]]}
+        res = one_shot("mixed", "pestverif.props.c15:run_sweep", req, timeout=600)
+        if res["bad"]:
+            rule, inp, k, got, want = res["bad"][0]
+            return f"sweep:result: parse({rule!r}, {inp!r}, start_pos={k}) reused: {str(got)[:250]}; fresh: {str(want)[:250]}"
         return None
     if case["kind"] == "preempt":
         req = {"texts": case["texts"], "object": tuple(case["object"]), "tasks": [tuple(t) for t in case["tasks"]]}
